@@ -175,6 +175,21 @@ Proof. cbn [filter]. destruct (f x); reflexivity. Qed.
 
 Ltac norm_app := repeat (progress (rewrite <- ?app_assoc; cbn [app])).
 
+(* `TABLE.iter().filter(|(e, _)| test e).map(|(_, c)| *c)` over a table of pairs: whatever way the two closures take
+   the pair apart (tuple pattern, `.0` / `.1`), they are the model's selection iff they agree with it on every pair *)
+Lemma map_filter_pair_ext {A B} (f : A * B -> B) (g g' : A * B -> bool) l :
+  (forall p, f p = snd p) -> (forall p, g p = g' p) -> map f (filter g l) = map snd (filter g' l).
+Proof. intros Hf Hg. rewrite (filter_ext g g' Hg). apply map_ext. exact Hf. Qed.
+
+(* the selection of effect classes, however it is spelled, in the model's spelling (nothing to do for the if-chain) *)
+Ltac effect_selection s :=
+  repeat match goal with
+  | |- context [map ?f (filter ?g ?l)] =>
+      lazymatch f with @snd _ _ => fail | _ => idtac end;
+      replace (map f (filter g l)) with (map snd (filter (fun p => svg_contains (s_eff s) (fst p)) l))
+        by (symmetry; apply map_filter_pair_ext; intros [? ?]; reflexivity)
+  end.
+
 (* write_fg_span *)
 Lemma g_svg_write_fg_span_eq o buffer s fragment :
   g_svg_write_fg_span o buffer s fragment =
@@ -184,7 +199,7 @@ Proof.
   rewrite !class_stage.
   destruct (s_fg s) as [cf|]; [destruct (svg_color_name svg_fg_prefix cf) as [nf|]; [|reflexivity]|];
     (destruct (s_ul s) as [cu|]; [destruct (svg_color_name svg_underline_prefix cu) as [nu|]; [|reflexivity]|]);
-    cbv zeta; rewrite !if_push; cbv beta iota;
+    cbv zeta; rewrite ?if_push; cbv beta iota; effect_selection s;
     unfold svg_effect_classes; rewrite !filter_cons_app; cbn [filter map fst snd];
     unfold svg_print_fg_span, svg_elem, svg_class_attr; cbn [fst snd];
     change (@is_empty (list N)) with (@svg_is_nil (list N));
